@@ -113,9 +113,38 @@ def gen_case(rng):
     return {'kind': 'pair', 'specs': specs, 'rel': rel, 'queries': gen_queries(rng, specs)}
 
 
+def gen_samelen(rng):
+    """Families on one sample space whose stored supports have the same number of outcomes but different labels
+    (matching by storage position would pair unrelated outcomes), queried with the label-sensitive measures."""
+    klass = rng.choice(['str', 'int', 'strtuple'])
+    n = rng.randint(1, 2)
+    alph = [sorted(rng.sample(range(6), rng.randint(2, 3))) for _ in range(n)]
+    full = [list(o) for o in itertools.product(*alph)]
+    nd = rng.choice([2, 2, 3])
+    k = rng.randint(1, max(1, len(full) // 2))
+    ssk = rng.choice(['default', 'cart'])
+    specs = []
+    prev = None
+    for _ in range(nd):
+        while True:
+            s = rng.sample(full, k)
+            if prev is None or sorted(s) != sorted(prev):
+                break
+        prev = s
+        ps = G.gen_probs(rng, k, rng.choice(KINDS))
+        specs.append({'n': n, 'klass': klass, 'alph': alph, 'outcomes': s, 'pmf': ps, 'ss_kind': ssk,
+                      'ss': [sorted(a) for a in alph] if ssk == 'cart' else None, 'base': 'linear',
+                      'sparse': True, 'trim': True, 'names': None})
+    w = G.gen_probs(rng, nd, rng.choice(['dyadic', 'kn']))
+    qs = [{'k': 'jsd', 'w': w}, {'k': 'jsd', 'w': None}, {'k': 'vd'}, {'k': 'bc'}, {'k': 'kl', 'rvs': None, 'crvs': []}]
+    return {'kind': 'pair', 'specs': specs, 'rel': 'samelen', 'queries': qs}
+
+
 def generate(rng, tier):
     n = 90 if tier == 'quick' else 1100
-    return [gen_case(rng) for _ in range(n)]
+    cases = [gen_case(rng) for _ in range(n)]
+    cases.extend(gen_samelen(rng) for _ in range(6 if tier == 'quick' else 60))
+    return cases
 
 
 def kind_of(v):
